@@ -596,5 +596,6 @@ func genServerCases(seed uint64, tier string) []srvCase {
 	add(genBlock, 4)
 	add(genMisc, 3)
 	add(genBudget, 4)
+	add(genBep44, 8)
 	return cases
 }
